@@ -390,18 +390,23 @@ def sweepCase (B : SweepBlock) (r : Line3 Q) (implFe implIs : Bool) (a : SweepAc
   let allTiny := allTinyA px dx b.min.x b.max.x && allTinyA py dy b.min.y b.max.y && allTinyA pz dz b.min.z b.max.z
   let face := faceA px dx b.min.x b.max.x || faceA py dy b.min.y b.max.y || faceA pz dz b.min.z b.max.z
   let anyFail := failS px dx b.min.x b.max.x || failS py dy b.min.y b.max.y || failS pz dz b.min.z b.max.z
-  let gtag := if ovf then "face-minus-pos-overflows" else if allTiny then "all-components-fail-guard"
+  let gtag := if allTiny then "all-components-fail-guard" else if ovf then "face-minus-pos-overflows"
               else if face then "box-face-at-TMAX" else if anyFail then "other-guardpath" else "other-noguard"
-  let wtag (i : Ival) : String := if ovf then "" else if i.meetsWindow T then ":t-le-TMAX" else ":t-gt-TMAX"
+  -- is some EXACT hit parameter representable (|t| ≤ TMAX)?  (not used for the overflow class)
+  let wtag (i : Option Ival) : String :=
+    if gtag == "face-minus-pos-overflows" then "" else
+    match i with
+    | some i => if i.meetsWindow T then ":t-le-TMAX" else ":t-gt-TMAX"
+    | none => ""
   let desc : Unit → String := fun _ =>
     s!"{B.tag} box={vStr b.min};{vStr b.max} pos={vStr r.pos} dir={vStr r.dir} implFe={bStr implFe} implIs={bStr implIs} exactLine={bStr exact.isSome} exactRay={bStr exactR.isSome}"
   -- line
   let a :=
     match lSmall with
-    | some i =>
+    | some _ =>
       let a := { a with robustLine := a.robustLine + 1 }
       if implFe then a
-      else a.bump s!"findEntryAndExitPoints:hit-to-miss:{gtag}{wtag i}" desc
+      else a.bump s!"findEntryAndExitPoints:hit-to-miss:{gtag}{wtag exact}" desc
     | none =>
       if lBig.isNone then
         let a := { a with robustLine := a.robustLine + 1 }
@@ -409,10 +414,10 @@ def sweepCase (B : SweepBlock) (r : Line3 Q) (implFe implIs : Bool) (a : SweepAc
       else a
   -- ray
   match rSmall with
-  | some i =>
+  | some _ =>
     let a := { a with robustRay := a.robustRay + 1 }
     if implIs then a
-    else a.bump s!"intersects:hit-to-miss:{gtag}{wtag i}" desc
+    else a.bump s!"intersects:hit-to-miss:{gtag}{wtag exactR}" desc
   | none =>
     if rBig.isNone then
       let a := { a with robustRay := a.robustRay + 1 }
